@@ -4,7 +4,7 @@
    processes; a schedule is the list of completion events MPI reports (any order, any interleaving).
    c06_fixnew = true is the code in the tree (after fix d582b38 = fixes/C06-1.patch), false the code before it. *)
 From Coq Require Import List Arith Bool PeanoNat.
-From DuneV Require Import C06_Model C06_Model_Params C06_Spec C06_Proofs C06_Proofs_Case C06_Counters C06_Proofs_Params.
+From DuneV Require Import C06_Model C06_Model_Params C06_Spec C06_Proofs C06_Proofs_Case C06_Counters C06_Proofs_Params C06_Proofs_Count.
 Import ListNotations.
 
 (* ---------------------------------------------------------------- termination, all schedules, both code variants *)
@@ -266,6 +266,43 @@ Theorem C06_tags_distinct : c06_channels_separate = true.
 Proof. exact P_tags_distinct. Qed.
 Print Assumptions C06_tags_distinct.
 
+(* ---------------------------------------------------------------- the count handed to scatter in the fixed-size protocol (round 6) *)
+
+(* "the receiver is told the correct item count", fixed-size handles: on a link whose sender announced f (tracker.fixedSize of
+   the send tracker, sent on tag 933881), EVERY scatter call the receiver ever makes -- after any event sequence, in every
+   reachable state, not only at the end -- is told n = f.  No precondition: any entries, index lists, buffer, and ANY value
+   `own` the receive tracker was constructed with (the receiver's own handle.size(), which may differ from f, incl. 0). *)
+Theorem C06_fixed_count_is_announced : forall buf fixnew src dst f own entries ridx evs l',
+  c06_lexec_any buf fixnew (c06_link_init_fixed buf src dst f own entries ridx) evs = Some l' ->
+  Forall (fun c : c06_call => snd (fst c) = f) (c06_log l').
+Proof. exact P_fixed_count_link. Qed.
+Print Assumptions C06_fixed_count_is_announced.
+
+(* the same for the whole system: every link, every event sequence any set of processes can observe *)
+Theorem C06_fixed_count_all_links : forall buf fixnew ds np evs c',
+  c06_exec (fixed_cfg buf fixnew ds np) evs = Some c' ->
+  Forall2 (fun d l => Forall (fun c : c06_call => snd (fst c) = d_f d) (c06_log l)) ds (c_links c').
+Proof. exact P_fixed_count_global. Qed.
+Print Assumptions C06_fixed_count_all_links.
+
+(* and for what the correspondence runs: in the configuration c06_init builds for a fixed-size case, link p -> q is described
+   by d_f = the size rank p's setupInterfaceTrackers computed for q (c06_fixed_sizes over p's map) and d_own = the size rank q
+   computed for p (c06_own_fixed); under every schedule and any fuel every scatter count on the link is d_f *)
+Theorem C06_case_fixed_count : forall backward fixnew buf ni w np sizes es c0,
+  c06_init false backward fixnew buf ni w np sizes es = Some c0 ->
+  exists ds, c06_fdescs backward ni w np sizes es = Some ds /\
+    forall fuel sched, Forall2 (fun d l => Forall (fun c : c06_call => snd (fst c) = d_f d) (c06_log l)) ds (c_links (fst (c06_run fuel sched c0))).
+Proof. exact P_case_fixed_count. Qed.
+Print Assumptions C06_case_fixed_count.
+
+(* the receiver's own size is never looked at: two links that differ only in it produce the same scatter log under every
+   event sequence (and are enabled/disabled alike) *)
+Theorem C06_receiver_own_size_irrelevant : forall buf fixnew src dst f own1 own2 entries ridx evs,
+  option_map c06_log (c06_lexec_any buf fixnew (c06_link_init_fixed buf src dst f own1 entries ridx) evs) =
+  option_map c06_log (c06_lexec_any buf fixnew (c06_link_init_fixed buf src dst f own2 entries ridx) evs).
+Proof. exact P_own_size_irrelevant. Qed.
+Print Assumptions C06_receiver_own_size_irrelevant.
+
 (* ---------------------------------------------------------------- the counters of the progress loops *)
 
 (* size_to_send/size_to_recv and no_to_send/no_to_recv (initialised by std::count_if over the request vectors,
@@ -304,7 +341,7 @@ Example C06_ex_rounds : c06_pack_var 4 0 [[7]; []; [8; 9]; [1; 2]] = ([7; 8; 9],
 Proof. vm_compute; reflexivity. Qed.
 
 Example C06_ex_fixed_run :
-  let c0 := fixed_cfg 3 false [mkFD 0 1 2 [[1;2];[3;4];[5;6]] [9;8;7]; mkFD 1 0 2 [] []; mkFD 1 1 2 [[7;7]] [0]] 2 in
+  let c0 := fixed_cfg 3 false [mkFD 0 1 2 2 [[1;2];[3;4];[5;6]] [9;8;7]; mkFD 1 0 2 2 [] []; mkFD 1 1 2 2 [[7;7]] [0]] 2 in
   c06_link_ok_fixed 3 2 [[1;2];[3;4];[5;6]] [9;8;7] = true /\
   let c := fst (c06_run (c06_case_fuel c0) [3;1;4;1;5;9;2;6] c0) in
   c06_returned c = true /\ map c06_log (c_links c) = [[(9,2,[1;2]);(8,2,[3;4]);(7,2,[5;6])]; []; [(0,2,[7;7])]].
@@ -347,3 +384,26 @@ Example C06_ex_counters :
   c06_counters_init c0 0 = (1, 1) /\ c06_counters_init c0 1 = (1, 1) /\
   snd (c06_run_k (c06_case_fuel c0) [2;7;1;8;2;8] c0 (c06_counters_init c0)) 1 = (0, 0).
 Proof. vm_compute. repeat split. Qed.
+
+(* fixed sizes that differ between the two ends of every link: 0 announces 2 to 1 (whose own size is 3) and to 2 (a pure
+   receiver whose handle reports 0), 1 announces 3 to 0 (own size 2); two rounds on 0 -> 1 (buffer 5) *)
+Example C06_ex_fixed_sizes_differ :
+  let ds := [mkFD 0 1 2 3 [[1;2];[3;4];[5;6]] [9;8;7]; mkFD 0 2 2 0 [[1;2]] [4]; mkFD 1 0 3 2 [[5;6;7]] [0]; mkFD 2 0 1 2 [] []] in
+  let c0 := fixed_cfg 5 true ds 3 in
+  Forall (fun d => c06_link_ok_fixed 5 (d_f d) (d_entries d) (d_ridx d) = true) ds /\
+  let c := fst (c06_run (c06_case_fuel c0) [3;1;4;1;5;9;2;6;5;3;5] c0) in
+  c06_returned c = true /\
+  map c06_log (c_links c) = [[(9,2,[1;2]);(8,2,[3;4]);(7,2,[5;6])]; [(4,2,[1;2])]; [(0,3,[5;6;7])]; []].
+Proof. vm_compute. repeat split; repeat constructor. Qed.
+
+(* the same at the level of a case: rank 0 gathers 2 items per index, rank 1 gathers 3, rank 2 reports 0 and only receives *)
+Example C06_ex_case_fixed_sizes_differ :
+  let es := [mkE 0 1 [0;1] [1]; mkE 0 2 [1] []; mkE 1 0 [1] [1;0]; mkE 2 0 [] [0]] in
+  let sizes := [[2;2];[3;3];[0;0]] in
+  c06_case_ok_fixed false 6 3 sizes es = true /\
+  c06_own_fixed false sizes es 1 0 = 3 /\ c06_own_fixed false sizes es 2 0 = 1 /\ c06_own_fixed false sizes es 0 1 = 2 /\
+  c06_spec_case false 2 4 3 sizes es =
+    Some [(0,1,[(1,2,[0;1]); (0,2,[4;5])]); (0,2,[(0,2,[4;5])]); (1,0,[(1,3,[12;13;14])]); (2,0,[])] /\
+  (exists c0, c06_init false false true 6 2 4 3 sizes es = Some c0 /\
+     Some (c06_observe (fst (c06_run (c06_case_fuel c0) [5;3;1;4;1;5;9;2;6] c0))) = c06_spec_case false 2 4 3 sizes es).
+Proof. vm_compute. repeat split. eexists. split; reflexivity. Qed.
